@@ -770,8 +770,10 @@ def run(tier, seed):
             "add_data: depths in {1, 1.004, 2, 3} (thorough also 2.5), at most 2 (3) calls of at most 2 depths / "
             "intervals, collocation distance 0.001 or 0.01, float and text values; depths of one call are not "
             "collocated with each other; text depth data never collocates with an existing depth (the code refuses it)",
-            "quick tier replays a seeded sample (2000 paths) of the path cover of the 2-call add_data graph; thorough "
-            "replays all of it and seeded samples (8000 paths each) of the two 3-call graphs",
+            "add_data calls carry 1-3 data sets (one collocation distance per call); quick replays 1000 seeded paths of "
+            "the 2-call graph and 1500 paths of the 3-set multi-call graph chosen by shape first (all depth->interval->"
+            "depth histories on a live object, interval-then-depth in one call, multi-set calls re-using a depth while "
+            "the known depths are unsorted); thorough replays both graphs fully and seeded samples of three deeper ones",
             "concatenated drillholes (DrillholeGroup, version 2.x) are covered for desurvey only; their add_data keeps "
             "no vertices or cells (C04)",
         ],
